@@ -525,6 +525,12 @@ def find_selection(M: Model, m_expr: ast.expr, ev: Event) -> Selection | str:
             return got
     if isinstance(m_expr, ast.Subscript) and isinstance(m_expr.slice, ast.Slice) and m_expr.slice.lower is None and m_expr.slice.step is None and isinstance(m_expr.slice.upper, ast.Name) and ev.n is not None and _is_name(m_expr.value, ev.n):
         got = _index_walk(M, m_expr.slice.upper.id, ev)
+        if not isinstance(got, Selection):
+            from .c17_walks import index_walk_after
+
+            got2 = index_walk_after(M, m_expr.slice.upper.id, ev)  # result used after the loop, None sentinel, memo
+            if got2 is not None:
+                return got2
         if got is not None:
             return got
     if not isinstance(m_expr, ast.Name):
@@ -1501,8 +1507,24 @@ def _rule_aliased(C, aliased: list[Event], events: list[Event], label_names: set
     # ---- selections, grouped: several stores inside one search loop (`if n == m: ... elif n.startswith(m + "."): ...`) are one selection
     groups: dict[tuple, list] = {}
     for ev, m_expr in parsed:
+        from .c17_carried import carried_state, judge_carried
+
+        st_ = carried_state(M, m_expr, ev)
+        if st_ is not None:
+            # the enclosing aliased module is remembered from the modules visited before (stack / 'current' variable)
+            got = judge_carried(C, ev, m_expr, st_)
+            sel_results += got
+            if got and all(x[0] == "ok" for x in got):
+                _mark_sources(C, M, ev.value)
+            continue
         sel = find_selection(M, m_expr, ev)
         if isinstance(sel, str):
+            # not a selection that is read - but if the aliased module is reached from the module along the graph's edges and never
+            # compared with it by name, the selection is by reachability, not by name (rules/c17_domain.py)
+            via = _structural_choice(M, m_expr, ev, label_names)
+            if via is not None:
+                sel_results.append(("bad", r1, "ancestor test", f"the aliased module `{norm(m_expr, 40)}` whose alias labels `{ev.n}` is found by following the structure of the graph (`{via}`), and never compared with `{ev.n}` by name: hierarchy edges are not the dotted-prefix relation, so a module can get the alias of a module whose name it does not extend, cut at a non-boundary", ev.node))
+                continue
             sel_results.append(("unsure", r2, "most specific first", sel, ev.node))
             continue
         groups.setdefault((id(sel.loop) if sel.loop is not None else id(ev.node), sel.cand), []).append((ev, sel))
@@ -1538,6 +1560,30 @@ def _rule_aliased(C, aliased: list[Event], events: list[Event], label_names: set
         else:
             C.ok(rule, what, items_[0][1], items_[0][2])
     return self_event, len(parsed), bool(shape_bad or shape_unsure)
+
+
+def _structural_choice(M: Model, m_expr: ast.expr, ev: Event, label_names: set[str]) -> str | None:
+    """the read of the graph's edge structure through which the local `m_expr` gets its values, if it has one, starts out as the
+    module itself, and no condition of the store relates it to the module by name"""
+    from .c17_domain import provenance
+
+    if not isinstance(m_expr, ast.Name) or ev.n is None or ev.nloop is None:
+        return None
+    names_, reads = provenance(M, m_expr)
+    if not reads or ev.n not in names_:
+        return None
+    try:
+        g = ev_guard(M, ev, ev.nloop)
+        kinds = {a: classify_atom(M, a, ev.n, m_expr.id, label_names) for a in atoms_of(g)}
+    except AnalysisError:
+        return None
+    if set(kinds.values()) & {"self", "proper", "self+proper", "raw", "neg:proper", "raw:self", "raw:proper", "raw:both", "raw:not-self"}:
+        return None
+    for a, k in kinds.items():
+        pe = parse_atom(a) if k == "other" else None
+        if k == "other" and (pe is None or any(isinstance(x, ast.Name) and x.id == ev.n for x in ast.walk(pe))):
+            return None  # a test that involves the module itself and is not read: it may be the comparison by name
+    return reads[0]
 
 
 def _self_in_keys(M: Model, atom_text: str, n: str) -> bool:
@@ -1630,7 +1676,19 @@ def _judge_selection(C, ev: Event, sel: Selection, label_names: set[str], has_se
         elif raws and _sat_under(f_and([P, f_not(safe)]), env_fix):
             out.append(("bad", r1, what_t, f"`{raws[0][1]}`: raw string prefix test between module names - 'pkg.ab' is relabelled with the alias of 'pkg.a'", sel.where))
         elif not (selfs or propers or both):
-            out.append(("unsure", r1, what_t, f"the match condition `{_show(P)}` does not relate the module to the aliased candidate", sel.where))
+            # no test on the two names at all: is the module taken from a collection computed from the candidate along the graph's edges?
+            from .c17_domain import provenance
+
+            via = None
+            if ev.nloop is not None and ev.domain is None and not raws and not atoms_of(P) - {a for a, k in kinds.items() if k in ("label-text", "labelled")}:
+                names_, reads = provenance(M, ev.nloop.iter)
+                root_c = c.split("[")[0].split(".")[0]
+                if reads and (root_c in names_ or any(isinstance(x, ast.Name) and x.id == root_c for x in ast.walk(M.resolve(ev.nloop.iter)))):
+                    via = reads[0]
+            if via is not None:
+                out.append(("bad", r1, what_t, f"which modules receive the alias of `{c}` is decided by the structure of the graph (`{n}` ranges over `{norm(ev.nloop.iter, 50)}`, computed from `{c}` through `{via}`), not by the names: no test that `{n}` equals `{c}` or starts with `{c}` + '.' - a module reachable over a hierarchy edge whose name does not extend the aliased name gets the alias, cut at a non-boundary (`{n}[len({c}):]`)", ev.nloop))
+            else:
+                out.append(("unsure", r1, what_t, f"the match condition `{_show(P)}` does not relate the module to the aliased candidate", sel.where))
         elif _equiv_under(P, safe, env_fix):
             covers_self = bool(selfs or both) or has_self_event
             covers_proper = bool(propers or both)
